@@ -91,6 +91,7 @@ class PathOracle:
             self.atoms.append((c.arg(0), c.arg(1), c.decl().kind(), pol))
 
     _zs = None
+    _zcache = {}
     zero_queries = 0
     _env = None
     _ncache = {}
@@ -190,6 +191,10 @@ class PathOracle:
         nv = PathOracle.numeval(e)
         if nv is not None and nv != 0:
             return False
+        key = r.get_id()
+        hit = PathOracle._zcache.get(key)
+        if hit is not None and hit[0].eq(r):
+            return hit[1]
         if PathOracle._zs is None:
             PathOracle._zs = z3.Solver()
             PathOracle._zs.set("timeout", 5000)
@@ -199,6 +204,7 @@ class PathOracle:
         PathOracle.zero_queries += 1
         res = s.check()
         s.pop()
+        PathOracle._zcache[key] = (r, res == z3.unsat)
         return res == z3.unsat
 
     def lt(self, a, b):
@@ -211,9 +217,10 @@ class PathOracle:
             d1 = a - b
             for (x, y, strict, holds) in self._as_less(l, r, k, pol):
                 # the atom states  x - y < 0 (strict) or <= 0 (non-strict), and it is true
-                if self.zero(d1 - (x - y)) and strict:
+                same = self.zero(d1 - (x - y))
+                if same and strict:
                     return True            # a - b < 0 holds
-                if self.zero(d1 - (x - y)) and not strict:
+                if same and not strict:
                     # the path only knows a <= b where the reference tests a < b: they part ways exactly on a == b
                     self.boundaries.append(a == b)
                 if self.zero(d1 + (x - y)):
@@ -432,6 +439,13 @@ def check_p2_step(W, prop):
                 found += 1
         W.query_timeout_ms = saved_timeout
         W.retries = 2
+        if hard_conf and not found:
+            # the solver has not shown conformance on these paths and produced no replayable witness: let the real build speak on a
+            # directed probe (short streams over a small alphabet, where exact ties occur); a mismatch there is the replay
+            W.results.append({"obligation": "M:Quantile.add-step conforms to P-square [directed probe of the real build, %d paths unclosed]" % len(hard_conf),
+                              "engine": "mirsym", "verdict": "violated", "role": "%s:Quantile.p2-conformance" % prop, "solver_s": 0.0,
+                              "note": "not a solver verdict: streams of 6 and 7 observations over {0,1,2,3}, p in {0, 1/4, 1/2}, final marker state "
+                                      "against the P-square reference; run only because the solver could not close the paths", "_replay": (probe_replay(), {})})
         if len(hard_conf) > tried:
             W.results.append({"obligation": "M:Quantile.add-step conforms to P-square [%d further unclosed paths]" % (len(hard_conf) - tried),
                               "engine": "mirsym", "verdict": "inconclusive", "role": "%s:Quantile.p2-conformance" % prop, "solver_s": 0.0,
@@ -483,6 +497,40 @@ def py_p2(q, n, m, p, x):
             q[i] = q[i] + s * (q[i + s] - q[i]) / (n[i + s] - n[i])
         n[i] += s
     return q, n, m
+
+
+def probe_replay():
+    """Directed probe used only when paths of add did not close and the budgeted solver search produced no replayable witness:
+    every stream of 6 and 7 observations over {0,1,2,3} for p in {0, 1/4, 1/2} through the real build, final marker state compared
+    with the P-square reference. Streams on which the reference itself is rounding-sensitive (its run in double arithmetic, same
+    operation order, differs from its run in rational arithmetic) are left out, so an exact tie is only used when it is a tie in
+    doubles as well."""
+    import itertools
+    from fractions import Fraction as Fr
+    from .replay import f2w
+
+    def run(stream, pv, num):
+        q = sorted(num(v) for v in stream[:5])
+        n = [1, 2, 3, 4, 5]
+        m = [num(1), 1 + 2 * pv, 1 + 4 * pv, 3 + 2 * pv, num(5)]
+        for x in stream[5:]:
+            q, n, m = py_p2(q, n, m, pv, num(x))
+        return q, n, m
+
+    def build(vals):
+        program, expected, streams = [], [], []
+        for pv in (Fr(1, 4), Fr(1, 2), Fr(0)):
+            for L in (6, 7):
+                for st in itertools.product((0, 1, 2, 3), repeat=L):
+                    qr, nr, mr = run(st, pv, Fr)
+                    qf, nf, mf = run(st, float(pv), float)
+                    if nr != nf or any(abs(float(a) - b) > 1e-12 for a, b in zip(qr, qf)):
+                        continue
+                    program += ["new Quantile " + f2w(float(pv))] + ["add " + f2w(float(v)) for v in st] + ["dump"]
+                    expected.append({"quantile": qr[2], "len": L, "_parts": [float(v) for v in qr] + nr + [float(v) for v in mr]})
+                    streams.append((float(pv), st))
+        return program, expected, {"scale": 1.0, "streams": len(streams)}
+    return {"vars": [], "build": build}
 
 
 def quantile_replay(q, n, m, p, x):
